@@ -197,6 +197,7 @@ def run(ctx):
 
     out.append(engine.slice_engine(ctx, ctx.rng(81), ctx.size(250, 3000), only="C12/"))
     out.append(engine.slice_mwea(ctx, ctx.rng(87), ctx.size(150, 2000), only="C12/"))
+    out.append(engine.slice_sea(ctx, ctx.rng(83), ctx.size(400, 5000), only="C12/"))
     return out
 
 
